@@ -1,6 +1,7 @@
 package main
 
 import (
+	"go/token"
 	"fmt"
 	"go/types"
 	"sort"
@@ -231,6 +232,13 @@ func checkDeterminism(w *World, pkgs []string) []*Result {
 						badGlob = append(badGlob, fmt.Sprintf("%s writes %s", shortFuncName(fn.String()), shortFuncName(g.String())))
 					}
 				}
+				g := globalMutation(ins)
+				if g == nil {
+					g = globalArgMutation(w, ins)
+				}
+				if g != nil && !isInit && strings.HasPrefix(g.Pkg.Pkg.Path(), repoModule) && !globalWriteAllowed(w, g) {
+					badGlob = append(badGlob, fmt.Sprintf("%s mutates %s in place", shortFuncName(fn.String()), shortFuncName(g.String())))
+				}
 			}
 		}
 	}
@@ -310,6 +318,211 @@ func rangeOrderFree(w *World, fn *ssa.Function, rng *ssa.Range) bool {
 	return false
 }
 
+// globalRoot: the package-level variable a value or address is derived from without leaving the variable's own
+// storage: the variable's address, a field/element address inside it, or the map / pointer / slice it holds.
+func globalRoot(v ssa.Value, depth int) *ssa.Global {
+	if depth > 8 {
+		return nil
+	}
+	switch x := v.(type) {
+	case *ssa.Global:
+		return x
+	case *ssa.UnOp:
+		if x.Op == token.MUL {
+			if g, ok := x.X.(*ssa.Global); ok {
+				return g
+			}
+			return globalRoot(x.X, depth+1)
+		}
+	case *ssa.FieldAddr:
+		return globalRoot(x.X, depth+1)
+	case *ssa.IndexAddr:
+		return globalRoot(x.X, depth+1)
+	case *ssa.Slice:
+		return globalRoot(x.X, depth+1)
+	case *ssa.ChangeType:
+		return globalRoot(x.X, depth+1)
+	}
+	return nil
+}
+
+// globalMutation: does the instruction change storage reachable from a package-level variable in place (a store
+// through it, a map update, or a method call on the variable's own address)?  Returns the variable.
+func globalMutation(ins ssa.Instruction) *ssa.Global {
+	switch x := ins.(type) {
+	case *ssa.Store:
+		if _, direct := x.Addr.(*ssa.Global); direct {
+			return nil // plain assignment of the variable: handled by the store scan
+		}
+		return globalRoot(x.Addr, 0)
+	case *ssa.MapUpdate:
+		return globalRoot(x.Map, 0)
+	case ssa.CallInstruction:
+		cc := x.Common()
+		if cc.IsInvoke() || len(cc.Args) == 0 {
+			return nil
+		}
+		if callee := cc.StaticCallee(); callee != nil && callee.Signature.Recv() != nil {
+			if _, isPtr := callee.Signature.Recv().Type().(*types.Pointer); isPtr {
+				switch r := cc.Args[0].(type) {
+				case *ssa.Global:
+					return r
+				case *ssa.FieldAddr, *ssa.IndexAddr:
+					if g := globalRoot(r, 0); g != nil {
+						// a method on a part of the variable's own storage (not on a pointer it holds)
+						if _, viaLoad := rootIsLoad(r); !viaLoad {
+							return g
+						}
+					}
+				}
+			}
+		}
+	}
+	return nil
+}
+
+// paramRoot: like globalRoot, for a parameter of the enclosing function.
+func paramRoot(v ssa.Value, depth int) *ssa.Parameter {
+	if depth > 8 {
+		return nil
+	}
+	switch x := v.(type) {
+	case *ssa.Parameter:
+		return x
+	case *ssa.UnOp:
+		if x.Op == token.MUL {
+			return paramRoot(x.X, depth+1)
+		}
+	case *ssa.FieldAddr:
+		return paramRoot(x.X, depth+1)
+	case *ssa.IndexAddr:
+		return paramRoot(x.X, depth+1)
+	case *ssa.Slice:
+		return paramRoot(x.X, depth+1)
+	case *ssa.ChangeType:
+		return paramRoot(x.X, depth+1)
+	}
+	return nil
+}
+
+// mutatedParams: for every function of the repository, the parameters whose referent (map, pointer target, slice
+// backing array) the function changes, directly or by handing it to a function that does (least fixpoint).
+func mutatedParams(w *World) map[*ssa.Function]map[int]bool {
+	if w.mutParams != nil {
+		return w.mutParams
+	}
+	res := map[*ssa.Function]map[int]bool{}
+	var fns []*ssa.Function
+	for fn := range ssautil.AllFunctions(w.Prog) {
+		if strings.HasPrefix(pkgPathOf(fn), repoModule) && fn.Blocks != nil {
+			fns = append(fns, fn)
+		}
+	}
+	idx := func(fn *ssa.Function, p *ssa.Parameter) int {
+		for i, q := range fn.Params {
+			if q == p {
+				return i
+			}
+		}
+		return -1
+	}
+	mark := func(fn *ssa.Function, i int) bool {
+		if i < 0 {
+			return false
+		}
+		if res[fn] == nil {
+			res[fn] = map[int]bool{}
+		}
+		if res[fn][i] {
+			return false
+		}
+		res[fn][i] = true
+		return true
+	}
+	changed := true
+	for changed {
+		changed = false
+		for _, fn := range fns {
+			for _, b := range fn.Blocks {
+				for _, ins := range b.Instrs {
+					switch x := ins.(type) {
+					case *ssa.Store:
+						if p := paramRoot(x.Addr, 0); p != nil && mark(fn, idx(fn, p)) {
+							changed = true
+						}
+					case *ssa.MapUpdate:
+						if p := paramRoot(x.Map, 0); p != nil && mark(fn, idx(fn, p)) {
+							changed = true
+						}
+					case ssa.CallInstruction:
+						cc := x.Common()
+						callee := cc.StaticCallee()
+						if callee == nil || cc.IsInvoke() {
+							continue
+						}
+						for j, a := range cc.Args {
+							if res[callee][j] {
+								if p := paramRoot(a, 0); p != nil && mark(fn, idx(fn, p)) {
+									changed = true
+								}
+							}
+						}
+						if b, isB := cc.Value.(*ssa.Builtin); isB && (b.Name() == "delete" || b.Name() == "copy") && len(cc.Args) > 0 {
+							if p := paramRoot(cc.Args[0], 0); p != nil && mark(fn, idx(fn, p)) {
+								changed = true
+							}
+						}
+					}
+				}
+			}
+		}
+	}
+	w.mutParams = res
+	return res
+}
+
+// globalArgMutation: a package-level variable's map / pointer / slice (or its address) handed to a function that
+// changes that argument's referent.
+func globalArgMutation(w *World, ins ssa.Instruction) *ssa.Global {
+	x, ok := ins.(ssa.CallInstruction)
+	if !ok {
+		return nil
+	}
+	cc := x.Common()
+	if b, isB := cc.Value.(*ssa.Builtin); isB && (b.Name() == "delete" || b.Name() == "copy") && len(cc.Args) > 0 {
+		return globalRoot(cc.Args[0], 0)
+	}
+	callee := cc.StaticCallee()
+	if callee == nil || cc.IsInvoke() {
+		return nil
+	}
+	mp := mutatedParams(w)[callee]
+	for j, a := range cc.Args {
+		if mp[j] {
+			if g := globalRoot(a, 0); g != nil {
+				return g
+			}
+		}
+	}
+	return nil
+}
+
+func rootIsLoad(v ssa.Value) (ssa.Value, bool) {
+	for i := 0; i < 8; i++ {
+		switch x := v.(type) {
+		case *ssa.FieldAddr:
+			v = x.X
+		case *ssa.IndexAddr:
+			v = x.X
+		case *ssa.UnOp:
+			return x, true
+		default:
+			return v, false
+		}
+	}
+	return v, false
+}
+
 func globalWriteAllowed(w *World, g *ssa.Global) bool {
 	for _, d := range w.CS.AllowGlobalWrite {
 		if g.Pkg != nil && g.Pkg.Pkg.Path() == d.Pkg && g.Name() == d.Spec {
@@ -342,6 +555,17 @@ func checkIsolation(w *World) []*Result {
 		}
 		for _, b := range fn.Blocks {
 			for _, ins := range b.Instrs {
+				gm := globalMutation(ins)
+				if gm == nil {
+					gm = globalArgMutation(w, ins)
+				}
+				if g := gm; g != nil && strings.HasPrefix(g.Pkg.Pkg.Path(), repoModule) {
+					n++
+					if !globalWriteAllowed(w, g) {
+						bad = append(bad, fmt.Sprintf("%s writes %s", shortFuncName(fn.String()), shortFuncName(g.String())))
+					}
+					continue
+				}
 				st, ok := ins.(*ssa.Store)
 				if !ok {
 					continue
